@@ -273,8 +273,8 @@ func (e *OpEngine) publicOp(fn *ssa.Function) (name string, hasRecv bool, ok boo
 	if sig.Results().Len() == 0 {
 		return "", false, false
 	}
-	if !types.Identical(sig.Results().At(0).Type(), e.A.TensorIface) {
-		return "", false, false
+	if rt := sig.Results().At(0).Type(); !types.Identical(rt, e.A.TensorIface) && !types.Identical(rt, e.A.CPUPtr) {
+		return "", false, false // (constructors may return the concrete tensor type)
 	}
 	if sig.Recv() != nil {
 		if !types.Identical(sig.Recv().Type(), e.A.CPUPtr) || fn.Name() == "Gradient" {
